@@ -12,10 +12,11 @@ MANIFEST_ENTRY = dict(engine="LiquidVesting", design="§4 C11",
    text="The split of a lockup schedule (SubtractAmountFromPeriods) is proved exact on every period list of up to 4 periods with amounts 0..4 and every requested amount, on the model and, line by line, on the real function (plus seeded 10^18-scale inputs of up to 8 periods). Liquidate / transfer / redeem histories over three holders with scripted block times are explored exhaustively on the as-built machine (backing, schedule-sums-to-supply, exact split by release instants, no-early-unlock on redeem compared at every critical instant) and replayed on the real keepers, whose stores (module balance, liquid supply and holdings incl. the ERC20 side, Denom records, vesting account records) are projected after every message and checked by TLC.",
    note="Bounded by the constants in specs/LiquidVesting_*.cfg; messages run through MsgServiceRouter handlers on a cached context (baseapp.runMsgs semantics) with scripted block times, not through full DeliverTx; recipients have finished vesting schedules (no delegations); locked amounts are derived from the recorded schedules through the denotation of Schedule.tla (the bank's own LockedCoins at the block time is compared as a diagnostic); TLC, the Json community module and the BigNum override are trusted.")
 
-# reproduction of the known finding F2 (merge_min_start) in the shape it was first described: the
+# regression scenario of finding F2 (merge_min_start, repaired in /repo by c3dec7b; on a tree that has
+# the defect it shows C11|redeem-unlocks-early|recipient=existing-vesting,accStart<denomStart): the
 # recipient's account starts at t0 with a 1000 s lockup; the liquid token is created at t0+500 and
-# is locked for 1000 s more (until t0+1500); redeeming it into the account re-bases it onto t0, so
-# the redeemed coins are spendable at t0+1000.
+# is locked for 1000 s more (until t0+1500); the defect re-based it onto t0 when it was redeemed into
+# the account, so that the redeemed coins were spendable at t0+1000.
 REPRO_F2 = {
     "cfg": {"seed": 11, "minLiq": "1", "accts": {
         "a1": {"kind": "vesting", "start": 0, "lockup": [{"len": 1000, "amt": {"aISLM": "5"}}]},
@@ -127,7 +128,7 @@ def run(c):
     c.add_tlc("LiquidVesting_defect_strict.cfg", r)
 
     # 2. spec -> code: behaviours of the as-built machine as scripts (two initial configurations), the
-    #    reproduction of the known finding, the enumerated split inputs and seeded random inputs
+    #    regression scenario of finding F2, the enumerated split inputs and seeded random inputs
     nscripts = 120 if quick else 1500
     scripts = []
     for cfg in ("LiquidVesting_sim.cfg", "LiquidVesting_sim2.cfg"):
@@ -161,17 +162,6 @@ def run(c):
         log("note: %d steps where the real code is not the as-built machine of the specification (diagnostic): %s"
             % (len(res["div"]), sorted({d["what"] for d in res["div"]})))
 
-    # vacuity floors
-    floors = [("liquidate_ok", 100), ("liquidate_other_ok", 20), ("transfer_ok", 20), ("redeem_partial_ok", 50),
-              ("redeem_full_ok", 30), ("splits_ok", 6000), ("splits_with_residue", 1000), ("splits_rejected", 500),
-              ("helper_lines", 500)]
-    for k, n in floors:
-        if cov[k] < n:
-            raise Infra("vacuous run: %s = %d < %d" % (k, cov[k], n))
-    for k in ("fresh", "plain", "vesting<", "vesting>"):
-        if cov["redeem_into"].get(k, 0) < 5:
-            raise Infra("vacuous run: only %d successful redeems into a recipient of kind %s" % (cov["redeem_into"].get(k, 0), k))
-
     # 4. verdict: every signature is reproduced alone from its recorded scenario (or pure line)
     def replay_for(v):
         lines = scenario_lines(trace, v["scn"])
@@ -195,6 +185,21 @@ def run(c):
         else:
             raise Infra("signature %s did not reproduce from %s" % (s, path))
     c.add_violations(confirmed)
+
+    # vacuity floors.  A run that shows a new violation is reported as such even if it is otherwise
+    # thin (a broken tree may make every later message fail); without one, a thin run is exit 2.
+    floors = [("liquidate_ok", 100), ("liquidate_other_ok", 20), ("transfer_ok", 20), ("redeem_partial_ok", 50),
+              ("redeem_full_ok", 30), ("splits_ok", 6000), ("splits_with_residue", 1000), ("splits_rejected", 500),
+              ("helper_lines", 500)]
+    thin = ["%s = %d < %d" % (k, cov[k], n) for k, n in floors if cov[k] < n]
+    thin += ["successful redeems into a recipient of kind %s: %d < 5" % (k, cov["redeem_into"].get(k, 0))
+             for k in ("fresh", "plain", "vesting<", "vesting>") if cov["redeem_into"].get(k, 0) < 5]
+    if thin:
+        known = {k["signature"] for k in load_known() if k["property"] == "C11" and k.get("status", "known") == "known"}
+        if all(sig_of(v) in known for v in confirmed):
+            raise Infra("vacuous run: " + "; ".join(thin))
+        log("note: thin run (%s); reported because it shows a new violation" % "; ".join(thin))
+        c.extra["thin_run"] = thin
     c.assumptions += [
         "TLC and the BigNum Java override (java/BigNum.java) are trusted",
         "the projection in harness/liquidvesting.go reads the real stores (bank balances and supply, ERC20 balanceOf, liquidvesting Denom records, auth accounts)",
